@@ -348,7 +348,7 @@ def parse_text(R, ctx):
     for c in calls:
         arg = c["args"][0]
         orig = fa.origins(arg)
-        via = [x.get("fname") for x in fa.source_calls(arg) if x.get("fname") not in ("as_ref", "borrow", "deref", "as_str")]
+        via = [x.get("fname") for x in fa.source_calls(arg) if x.get("fname") not in ("as_ref", "borrow", "deref", "as_str", "to_string", "to_owned", "clone", "into", "from", "as_mut_str", "to_str")]     # copies keep every byte offset
         params = [o for o in orig if o[0] == "#param"]
         ok = bool(params) and len(orig) == len(params) and not via
         R.ob(rid, "parse|text-is-the-parameter", ok, ctx.where(fn, c.get("ln")),
